@@ -249,13 +249,17 @@ def run(prog, rep):
         rep.check(not bad and seen == set(want), "R16.7", "Rectangle::" + name,
                   "%s: first / middle / last %s of the rectangle (an empty extent counts as 1): %s" % (name, "column" if pos is X else "row", "; ".join(sorted(set(bad))[:2]) or "anchors seen: %s" % sorted(seen)), at=f.span, fn=f.path)
 
-    for name, pos, ext, names in (("resize_width_mut", X, W, ("Left", "Center", "Right")), ("resize_height_mut", Y, H, ("Top", "Center", "Bottom"))):
+    # the public single-axis resizers, everything inlined (whether they go through `resize_*_mut` helpers writing a copy
+    # or build the result by value): per anchor, the four components of the returned rectangle
+    from mirq.origin import mk_field
+    for name, pos, ext, opos, oext, names in (("resized_width", X, W, Y, H, ("Left", "Center", "Right")), ("resized_height", Y, H, X, W, ("Top", "Center", "Bottom"))):
         f, ss = summs(name)
         if ss is None:
             continue
         new = ("param", 2, f.body["locals"][2].get("name"))
         delta = sub(mx(ext), mx(new))
         want = {names[0]: pos, names[1]: add(pos, div(delta, C(2))), names[2]: add(pos, delta)}
+        ax = 0 if pos is X else 1
         bad, seen = [], set()
         for sm in ss:
             v = variant_fact(sm, 3)
@@ -263,22 +267,16 @@ def run(prog, rep):
                 bad.append("a path is not selected by the anchor alone")
                 continue
             seen.add(v)
-            ws = {}
-            for e in sm.effects:
-                if e[0] == "write":
-                    ws[repr(canon(e[1]))] = e[2]
-                else:
-                    bad.append("unexpected effect %s" % str(e[0]))
-            wpos, wext = ws.pop(repr(canon(pos)), None), ws.pop(repr(canon(ext)), None)
-            if ws:
-                bad.append("%s writes other fields: %s" % (v, sorted(ws)[0][:80]))
-            if wext is None or not same(wext, new):
-                bad.append("%s: the extent must become the new value; found %s" % (v, show(wext, maxd=4) if wext else None))
-            if wpos is None:
-                if v != names[0]:
-                    bad.append("%s: the position is not adjusted" % v)
-            elif not same(wpos, want[v]):
-                bad.append("%s moves the position to %s, expected %s (the anchored edge stays where it is)" % (v, show(canon(wpos), maxd=6), show(want[v], maxd=6)))
+            r = strip_refs(sm.ret)
+            tl, sz = mk_field(r, 0), mk_field(r, 1)
+            got_pos, got_opos = mk_field(tl, ax), mk_field(tl, 1 - ax)
+            got_ext, got_oext = mk_field(sz, ax), mk_field(sz, 1 - ax)
+            if not same(got_ext, new):
+                bad.append("%s: the extent must become the new value; found %s" % (v, show(canon(got_ext), maxd=4)))
+            if not same(got_opos, opos) or not same(got_oext, oext):
+                bad.append("%s changes the other axis: %s / %s" % (v, show(canon(got_opos), maxd=4), show(canon(got_oext), maxd=4)))
+            if not same(got_pos, want[v]):
+                bad.append("%s moves the position to %s, expected %s (the anchored edge stays where it is)" % (v, show(canon(got_pos), maxd=6), show(want[v], maxd=6)))
         rep.check(not bad and seen == set(want), "R16.7", "Rectangle::" + name,
                   "%s: %s" % (name, "; ".join(sorted(set(bad))[:2]) or "anchors seen: %s" % sorted(seen)), at=f.span, fn=f.path)
 
